@@ -514,6 +514,7 @@ def check_C18(ctx):
     ff = os.path.join(ctx.scratch, 'fmt.lst'); open(ff, 'w').write(''.join('|'.join(x) + '\n' for x in rows))
     paths = ctx.run_driver(b, 'c18_fmt', shards=16, extra=f'file={ff}', timeout=1500)
     paths += ctx.run_driver(b, 'c18_misc', shards=8, timeout=900)
+    paths += ctx.run_driver(b, 'c18_float', shards=8, timeout=900)        # %F conversions against the manual's accuracy rule
     ctx.validate(paths)
     ctx.notes.append(f'format rows enumerated by TLC and replayed against gmp_snprintf and libc snprintf: {len(rows)}')
     return ctx.finish('model_checking',
@@ -648,7 +649,7 @@ def check_C15(ctx):
     sf = os.path.join(ctx.scratch, 'sched.lst'); open(sf, 'w').write('\n'.join(scheds) + '\n')
     paths = ctx.run_driver(b, 'c15', shards=8, extra=f'file={sf}', timeout=900)
     # write inventory: the global-write detector runs inside every driver; these cover the whole API surface (single-threaded, deterministic)
-    for d, shards in [('hist', 8), ('alias', 8), ('c13', 4), ('c12', 4), ('c16_prime', 4), ('c16_comb', 2), ('c18_misc', 2), ('c19_hist', 4), ('c17_stream', 4), ('c06_mpz', 4), ('c08_powm', 4), ('c07_mpz', 4)]:
+    for d, shards in [('c15_sizes', 6), ('hist', 8), ('alias', 8), ('c13', 4), ('c12', 4), ('c16_prime', 4), ('c16_comb', 2), ('c18_misc', 2), ('c19_hist', 4), ('c17_stream', 4), ('c06_mpz', 4), ('c08_powm', 4), ('c07_mpz', 4)]:
         paths += ctx.run_driver(b, d, shards=shards, timeout=900, tier='quick')
     ctx.validate(paths)
     ctx.notes.append(f'schedules enumerated by TLC and forced on the real library: {len(scheds)}')
